@@ -10,7 +10,13 @@ def opstr(o):
     return o.get('v', '?')
 
 def main():
-    F = Facts(sys.argv[1]); F.summaries()
+    norm = '--norm' in sys.argv
+    if norm:
+        sys.argv.remove('--norm')
+        from gdslint.ctx import Ctx
+        F = Ctx(sys.argv[1]).F
+    else:
+        F = Facts(sys.argv[1]); F.summaries()
     pat = sys.argv[2]
     allm = len(sys.argv) > 3
     for q, b in sorted(F.bodies.items()):
@@ -22,7 +28,7 @@ def main():
             for i, t in enumerate(b['locals']):
                 print('    _%d: %s %s' % (i, F.ty_s(t), b['dbg'].get(str(i), '')))
         for i, bb in enumerate(b['blocks']):
-            if bb['cleanup']:
+            if bb['cleanup'] or (norm and i not in F.cfg(b).reach):
                 continue
             for s in bb['stmts']:
                 if s['k'] == 'assign':
